@@ -341,13 +341,30 @@ def check_abandoned(ctx, R="C13.abandon"):
         ctx.ok(R, calls[0], "for/until is a try-interrupt with one condition and one aborting handler")
     else:
         ctx.finding(R, isb, "for/until try-interrupt", "`do X for/until` is no longer runTryInterrupt(self, agent, body, [condition], [handler])")
-    # duration condition
+    check_duration(ctx, R)
+
+
+def check_duration(ctx, R):
+    """`do X for T`: fires when currentTime - startTime >= limit, the limit in steps being T / timestep exactly (no rounding:
+    rounding the quotient down ends the statement one step early whenever T is not a float-exact multiple of the timestep)."""
+    model = ctx.model
+    isb = model.func(IV, "Invocable._invokeSubBehavior")
     lam = [n for n in ast.walk(isb) if isinstance(n, ast.Lambda) and "currentTime" in unparse(n)]
     st_v = lib.locals_assigned(isb, lambda v: unparse(v) == "veneer.currentSimulation.currentTime")
-    tl_v = [n.target.id for n in ast.walk(isb) if isinstance(n, ast.AugAssign) and isinstance(n.op, ast.Div) and isinstance(n.target, ast.Name) and unparse(n.value) == "veneer.currentSimulation.timestep"]
-    if lam and len(st_v) == 1 and len(tl_v) == 1 and lib.ctext(lam[0].body) == lib.ctext_of(f"veneer.currentSimulation.currentTime - {st_v[0]} >= {tl_v[0]}") and tl_v[0] in lib.locals_assigned(isb, lambda v: unparse(v).endswith(".value")):
-        ctx.ok(R, lam[0], "`for N steps/seconds` fires when currentTime - startTime >= N (seconds converted with the timestep)")
-    else:
+    limit_locals = set(lib.locals_assigned(isb, lambda v: unparse(v).endswith(".value")))
+    convs = []
+    for n in ast.walk(isb):
+        if isinstance(n, ast.AugAssign) and isinstance(n.target, ast.Name) and n.target.id in limit_locals:
+            convs.append((n.target.id, ast.BinOp(left=ast.Name(id=n.target.id, ctx=ast.Load()), op=n.op, right=n.value), n))
+        elif isinstance(n, ast.Assign) and isinstance(n.targets[0], ast.Name) and n.targets[0].id in limit_locals and n.targets[0].id in lib.names_loaded(n.value):
+            convs.append((n.targets[0].id, n.value, n))
+    exact = [c for c in convs if lib.ctext(c[1]) == lib.ctext_of(f"{c[0]} / veneer.currentSimulation.timestep")]
+    bad = [c for c in convs if c not in exact]
+    for name, expr, node in bad:
+        ctx.finding(R, node, "duration conversion is not an exact division", f"`do X for T seconds`: the limit is converted with `{unparse(node)}`, not `T / timestep`: rounding (int / floor / round) ends or prolongs the statement by one step whenever T is not an exact multiple of the time step")
+    if lam and len(st_v) == 1 and len(exact) == 1 and not bad and lib.ctext(lam[0].body) == lib.ctext_of(f"veneer.currentSimulation.currentTime - {st_v[0]} >= {exact[0][0]}"):
+        ctx.ok(R, lam[0], "`for N steps/seconds` fires when currentTime - startTime >= N (seconds converted by exact division by the timestep)")
+    elif not bad:
         ctx.finding(R, isb, "duration condition", "the `for` duration condition is no longer `currentTime - startTime >= timeLimit` with seconds divided by the timestep")
 
 
